@@ -275,6 +275,15 @@ def _motion(ctx, prog):
                key="C11.2:starts-with-first")
         loop_ev = [e for e in r.of_kind("loop") if e.data["lid"] == lid]
         it = loop_ev[0].data["iter"] if loop_ev else None
+        canon = _canonical_candidates(it, lid, poses, ACCF)
+        if canon is not None:
+            # the same iteration space written over the elements
+            # (enumerate(zip(poses[1:], distances[1:]), start=1)): expressed
+            # through the index 1 .. len-1 like the pinned loop
+            it, rw_ = canon
+            upd = upd.map(rw_)
+            r.env_all = {k: v.map(rw_) for k, v in r.env_all.items()}
+            loop_ev[0].live = loop_ev[0].live.map(rw_)
         ok = it is not None and is_call_to(it, "builtins.range") and \
             len(it.args[1]) == 2 and tm.is_const(it.args[1][0], 1) and \
             is_call_to(it.args[1][1], "builtins.len") and \
@@ -287,7 +296,19 @@ def _motion(ctx, prog):
                "motion filter: candidates are indices 1 .. len-1 in order",
                key="C11.2:loop-range")
         i = T("elem", it, lid)
-        chain = _ite_chain(upd)
+        pl0 = set(_conj(loop_ev[0].live)) | {T("iter", lid)}
+
+        def skip_form(ch):
+            """`if <both tests fail>: continue` in front of the updates: they
+            happen under the negation of the skip test"""
+            if len(ch) == 2 and ch[0][0] is not None and \
+                    ch[0][1].op == "loopvar" and ch[1][1].op != "loopvar":
+                inner = [x for x in _conj(ch[0][0]) if x not in pl0]
+                neg = tm.mk_or(*[tm.mk_not(x) for x in inner]) if inner \
+                    else tm.FALSE
+                return [(neg, ch[1][1]), (None, ch[0][1])]
+            return ch
+        chain = skip_form(_ite_chain(upd))
         accepts = [(c, v) for c, v in chain if c is not None]
         keep = chain[-1][1]
         shape = bool(accepts) and all(
@@ -379,6 +400,14 @@ def _motion(ctx, prog):
                 ref = last_kept_ref(r1.args[0].args[1]) if roles else None
                 if ref and ref != "<last kept id>":
                     used_states.append((ref, "index"))
+                if not roles and r2 is tm.sub(tm.sub(poses, i), blk) and \
+                        r1.op == "sub" and r1.args[1] is blk and \
+                        r1.args[0].op == "loopvar" and \
+                        r1.args[0].args[1] == lid and \
+                        r1.args[0].args[2] is tm.sub(poses, const(0)):
+                    # the last kept *pose* is carried (starts as poses[0])
+                    roles, ref = True, r1.args[0].args[0]
+                    used_states.append((ref, "pose"))
                 oka = roles and ref is not None and a_ is want_thr and \
                     rel == "LtE"
                 if roles and ref is not None and a_ is not want_thr:
@@ -405,11 +434,12 @@ def _motion(ctx, prog):
             ok = False
             detail = f"`{sname}` is not updated in the loop"
             if st is not None:
-                ch = _ite_chain(st.args[3])
+                ch = skip_form(_ite_chain(st.args[3]))
                 resets = {c: v for c, v in ch if c is not None}
                 missing = [c for c in full if c not in resets]
                 vals_ok = all(
                     (v is i) if kind == "index" else
+                    (v is tm.sub(poses, i)) if kind == "pose" else
                     (v.op == "sub" and v.args[1] is i and is_call_to(
                         v.args[0], ACCF)) for v in resets.values())
                 ok = not missing and vals_ok and ch[-1][1].op == "loopvar"
@@ -455,6 +485,52 @@ def _motion(ctx, prog):
     ctx.ob("C11.2", m, ok,
            "PosePath3D.motion_filter passes its own poses and the "
            "like-named thresholds", key="C11.2:method-wiring")
+
+
+def _canonical_candidates(it: Optional[T], lid: int, poses: T, accf: str):
+    """(range(1, len(poses)), rewrite) if the loop enumerates the poses 1 ..
+    len-1 through their elements: [enumerate(]zip(poses[1:], X[1:], ...)[,
+    start=1)] with every X as long as `poses` (the accumulated distances of
+    all positions); the rewrite expresses index and elements through the
+    canonical index variable"""
+    if it is None:
+        return None
+    S1 = T("slice", const(1), tm.NONE, tm.NONE)
+    inner, idx_term = it, None
+    if is_call_to(it, "builtins.enumerate") and it.args[1]:
+        start = it.args[1][1] if len(it.args[1]) > 1 else dict(
+            it.args[2]).get("start")
+        if start is None or not tm.is_const(start, 1):
+            return None
+        inner = it.args[1][0]
+        idx_term = T("binop", "Add", T("index", lid), start)
+    comps = list(inner.args[1]) if is_call_to(inner, "builtins.zip") \
+        else [inner]
+    bases = []
+    for c in comps:
+        if not (c.op == "sub" and c.args[1] is S1):
+            return None
+        b = c.args[0]
+        full = b is poses or (is_call_to(b, accf) and b.args[1] and (
+            lambda pe: pe is not None and pe[2] is poses and not pe[3])(
+            per_element(b.args[1][0])))
+        if not full:
+            return None
+        bases.append((c, b))
+    if not any(b is poses for _, b in bases):
+        return None
+    rng = tm.call(tm.glob("builtins.range"), (const(1), tm.call(
+        tm.glob("builtins.len"), (poses,), ())), ())
+    I = T("elem", rng, lid)
+
+    def rw(x: T):
+        if idx_term is not None and x is idx_term:
+            return I
+        for c, b in bases:
+            if x is T("elem", c, lid):
+                return tm.sub(b, I)
+        return None
+    return rng, rw
 
 
 # ---------------------------------------------------------------- C11.3
